@@ -23,6 +23,7 @@ package resolver
 import (
 	"fmt"
 	"math"
+	"strconv"
 
 	"github.com/gontainer/gontainer-helpers/v3/exporter"
 	"github.com/gontainer/gontainer/internal/pkg/consts"
@@ -44,6 +45,11 @@ func (NonStringPrimitiveResolver) ResolveArg(i any) (e ArgExpr, _ error) {
 		// Go has no constant expression for a non-finite float (the exporter prints "float64(+Inf)"),
 		// such a value must be computed in the runtime.
 		code = nonFiniteFloat(f)
+	} else if ok && math.Abs(f) >= maxPlainFloat {
+		// The exporter prints such a value as a decimal integer ("float64(1000...0)", hundreds of digits for 1e300).
+		// That is an untyped integer constant, and the compiler rejects integer constants that do not fit 512 bits
+		// ("constant overflow"), so huge floats are written in the exponent form.
+		code = fmt.Sprintf("float64(%s)", strconv.FormatFloat(f, 'e', -1, 64))
 	}
 	return ArgExpr{
 		Code:              fmt.Sprintf(consts.TplDependencyValue, code),
@@ -53,6 +59,9 @@ func (NonStringPrimitiveResolver) ResolveArg(i any) (e ArgExpr, _ error) {
 		DependsOnTags:     nil,
 	}, nil
 }
+
+// maxPlainFloat is the magnitude from which a float is emitted in the exponent form (it no longer fits any integer type).
+const maxPlainFloat = 1e19
 
 // nonFiniteFloat returns a Go expression that evaluates to +Inf, -Inf or NaN.
 func nonFiniteFloat(f float64) string {
